@@ -15,6 +15,7 @@ META = {
                    'R16.5 inventory of unsafe impl Send/Sync.',
     'not_decided': ['whether a debug_assert! that no rule proves can fail (accepted as an assumption when its condition has no side effect and the function has no unsafe operation; counted under discharge class DA)', 'agreement of actual results across threads and orders (needs runs)', 'determinism of std formatting'],
 }
+META['explanation'] += ' R16.7 the immediate decoders run only on values tested to have their tag (applied to a heap word they would yield address bits).'
 DENY = ['std::time', 'std::env', 'std::process', 'std::thread', 'std::fs', 'std::net', 'std::hash::random', 'std::collections::hash', 'std::io::stdio::stdin',
         'std::io::stdio::Stdin', 'std::sys::', 'core::fmt::Pointer', 'std::random', 'getrandom', 'rand::']
 
